@@ -32,3 +32,16 @@ Print Assumptions C12_a64_access_covers_db.
 Theorem C12_a64_access_covers_db_refuted : forall c, In c a64_access_cases_bad -> a64_case_ok a64_tabs c = false.
 Proof. exact a64_access_covers_db_refuted. Qed.
 Print Assumptions C12_a64_access_covers_db_refuted.
+
+(* non-vacuity of C12_a64_no_run_without_flag on the table of the working tree: every access record only uses kRead/kWrite, and there are
+   instructions without the consecutive flag that are not tbl/tbx *)
+Example C12_a64_no_run_without_flag_nonvacuous :
+  forallb (fun r => forallb (fun e => e <=? 3) r) (at_rwx a64_tabs) = true /\
+  existsb (fun row => negb (test (ai_flags row) (at_consecutive a64_tabs))) (at_inst a64_tabs) = true.
+Proof. split; vm_compute; reflexivity. Qed.
+
+(* non-vacuity of C12_a64_flagged_run_reported: the table has flagged instructions, and the snapshot has accepted list cases with > 2 operands *)
+Example C12_a64_flagged_run_reported_nonvacuous :
+  existsb (fun row => test (ai_flags row) (at_consecutive a64_tabs)) (at_inst a64_tabs) = true /\
+  existsb (fun c => Nat.ltb 2 (length (ac_ops c))) a64_list_cases = true.
+Proof. split; vm_compute; reflexivity. Qed.
